@@ -91,6 +91,20 @@ type Func struct {
 
 type Tuple []Val
 
+// FuncTable is a package-level map[string]func(...) whose entries were read from the
+// composite literal in the package initialiser (keys cross-checked against the dump).
+type FuncTable struct {
+	Name  string
+	Keys  []string
+	Funcs map[string]Func
+}
+
+// FuncChoice is the result of a symbolic lookup in a FuncTable.
+type FuncChoice struct {
+	Table *FuncTable
+	Key   string
+}
+
 // Opaque is an unmodelled value (any use other than passing it around is outside the subset).
 type Opaque struct {
 	Typ types.Type
@@ -99,9 +113,12 @@ type Opaque struct {
 
 // Table is a package-level table dumped from the real init code.
 type Table struct {
-	Name string
-	Data interface{} // decoded JSON
-	Typ  types.Type
+	Name     string
+	Data     interface{} // decoded JSON (this level)
+	Typ      types.Type
+	RootData interface{} // decoded JSON of the whole table (nested lookups)
+	Keys     []string    // key terms applied so far
+	KeySorts []string
 }
 
 type Obj struct {
